@@ -50,7 +50,10 @@ pub struct ExploreResult {
 pub struct Limits {
     /// tags of violations that are listed as known findings for this case: they are counted
     /// and the exploration continues (anything else ends the exploration)
-    pub known_tags: Vec<String>,
+    /// `harness|case|` – prepended to a violation's tag to form its signature
+    pub known_prefix: String,
+    /// signatures (globs) listed as known findings for this property
+    pub known_globs: Vec<String>,
     pub deadline: Instant,
     /// (worker index, worker count): top-level sub-trees are dealt round robin
     pub worker: (u32, u32),
@@ -66,7 +69,7 @@ struct Frame {
 /// `tag: details` -> tag (the stable part of an oracle message); other messages: kind only
 pub fn tag_of(kind: &str, message: &str) -> String {
     match message.split_once(':') {
-        Some((t, _)) if t.len() <= 48 && !t.contains(' ') => format!("{kind}/{t}"),
+        Some((t, _)) if t.len() <= 48 && !t.contains(&['[', '(', '{'][..]) => format!("{kind}/{t}"),
         _ => kind.to_string(),
     }
 }
@@ -92,6 +95,16 @@ pub fn explore(
 ) -> ExploreResult {
     let mut res = ExploreResult::default();
     let mut non_elidable: HashSet<u32> = initial_non_elidable.iter().copied().collect();
+    // warm-up: process-global lazies of the code under test (loggers, process-local registries)
+    // are initialised by the first execution; it must not be part of the explored tree, whose
+    // executions all have to start from the same process state
+    {
+        let mut c = cfg.clone();
+        c.states = false;
+        c.stale_reads = false;
+        let _ = rt::run_once(&c, &[], &[], &Arc::new(non_elidable.clone()), &body);
+        let _ = rt::run_once(&c, &[], &[], &Arc::new(non_elidable.clone()), &body);
+    }
     'restart: loop {
         res.stages.clear();
         res.outcomes.clear();
@@ -194,7 +207,8 @@ pub fn explore(
 /// an unlisted one (which is stored as THE violation of this exploration)
 fn known(res: &mut ExploreResult, limits: &Limits, v: ViolationRec) -> bool {
     let tag = tag_of(&v.kind, &v.message);
-    if limits.known_tags.iter().any(|t| *t == tag) {
+    let sig = format!("{}{}", limits.known_prefix, tag);
+    if limits.known_globs.iter().any(|g| crate::coord::glob_match(g, &sig)) {
         if v.fatal {
             // parked model threads of the abandoned execution can never be reused
             rt::abandon_pool();
